@@ -36,26 +36,26 @@ func (k Kind) String() string { return kindNames[k] }
 // Node is one value. Map keys / set members are stored with their kind marker:
 // a key is the Go string as the interpreter stores it (keywords carry the U+029E prefix).
 type Node struct {
-	K    Kind
-	B    bool
-	I    int
-	S    string           // Str, Kw (without marker), Sym, Opaque (type label)
-	L    []*Node          // List, Vec
-	M    map[string]*Node // Map: raw key -> value
-	Mem  map[string]bool  // Set: raw members
+	K   Kind
+	B   bool
+	I   int
+	S   string           // Str, Kw (without marker), Sym, Opaque (type label)
+	L   []*Node          // List, Vec
+	M   map[string]*Node // Map: raw key -> value
+	Mem map[string]bool  // Set: raw members
 }
 
 const Marker = "ʞ"
 
-func N() *Node                 { return &Node{K: Nil} }
-func Bo(b bool) *Node          { return &Node{K: Bool, B: b} }
-func In(i int) *Node           { return &Node{K: Int, I: i} }
-func St(s string) *Node        { return &Node{K: Str, S: s} }
-func Ke(s string) *Node        { return &Node{K: Kw, S: s} }
-func Sy(s string) *Node        { return &Node{K: Sym, S: s} }
-func Li(l ...*Node) *Node      { return &Node{K: List, L: l} }
-func Ve(l ...*Node) *Node      { return &Node{K: Vec, L: l} }
-func Op(label string) *Node    { return &Node{K: Opaque, S: label} }
+func N() *Node              { return &Node{K: Nil} }
+func Bo(b bool) *Node       { return &Node{K: Bool, B: b} }
+func In(i int) *Node        { return &Node{K: Int, I: i} }
+func St(s string) *Node     { return &Node{K: Str, S: s} }
+func Ke(s string) *Node     { return &Node{K: Kw, S: s} }
+func Sy(s string) *Node     { return &Node{K: Sym, S: s} }
+func Li(l ...*Node) *Node   { return &Node{K: List, L: l} }
+func Ve(l ...*Node) *Node   { return &Node{K: Vec, L: l} }
+func Op(label string) *Node { return &Node{K: Opaque, S: label} }
 func Ma(m map[string]*Node) *Node {
 	if m == nil {
 		m = map[string]*Node{}
